@@ -130,6 +130,7 @@ func Main(raceBuild bool) {
 		c := NewCtx(*prop, *tier, *seed, *shard, *nshards)
 		c.Race = raceBuild
 		c.WorkDir = mkWork(*work, fmt.Sprintf("shard%d", *shard))
+		c.SharedDir = *work
 		defer os.RemoveAll(c.WorkDir)
 		if pf := os.Getenv("VERIF_CPUPROFILE"); pf != "" {
 			f, _ := os.Create(fmt.Sprintf("%s.%d", pf, *shard))
@@ -331,6 +332,16 @@ func parent(ch *Check, tier string, seed uint64, nshards int, verifDir, workRoot
 		}
 	}
 	merged.Violations = append(merged.Violations, crashViolations...)
+	if ch.Post != nil {
+		pv, pn, perr := ch.Post(work, verifDir)
+		if perr != nil {
+			machineryErrs = append(machineryErrs, "post step: "+perr.Error())
+		}
+		merged.Violations = append(merged.Violations, pv...)
+		for k, v := range pn {
+			merged.Notes[k] = v
+		}
+	}
 	if raceReports > 0 {
 		merged.Violations = append(merged.Violations, Violation{Kind: "data-race", Attrs: map[string]string{}, What: fmt.Sprintf("%d data race report(s) from the Go race detector; logs in replays/%s-race-*.log", raceReports, ch.ID)})
 	}
